@@ -28,7 +28,7 @@ func init() {
 		Word32: true,
 		Level:  "exploration",
 		Rule: "E1 bounded-exhaustive enumeration: (join) per width w in {1,2,4,8,16,32,64}: every value list of length ≤5 over {0,1,^0,0xa5a5…,1<<63}, and for a set of lengths up to 192/w+1 every list that is 0 everywhere except ≤2 positions taken from the non-zero alphabet values: len(Join) = ceil(len·w/64), Getw(result,i,w) = low w bits of values[i] for every i, popcount(result) = Σ popcount(low w bits) (no other bit set); " +
-			"(slice) every bitmap of ≤3 words over {0,^0,1,1<<63,0xdeadbeefcafebabe} × every 0 ≤ from ≤ to ≤ 64·len: result length ceil((to-from)/64), bit j = input bit from+j, all other bits 0, input unchanged (the argument carries 3 words of spare capacity holding a canary, which must be intact too). (long) Join on lists filling about 20 (thorough 70) words with ≤2 non-zero values at positions within 1 of a word boundary, and Slice on 20/70-word bitmaps (zero or all-ones with one island at every position) × every range with both ends within 1 of a word boundary. (big) Join on lists and Slice on bitmaps whose lengths lie within 9 of every power of two from 2^10 to 2^14 (Slice: 2^12 words). (giant, 64-bit builds) one sparse bitmap of 2^25 words: Slice on every range of ≤300 bits with both ends in {0, 64, 2^30, 2^30+7, MaxInt32-200.., MaxInt32} (13 values) and Getw at the first, middle and last three elements for every width. A case is one Join call with all its Getw probes, or one Slice call; non-trivial when some value/bit is non-zero and the list/range is non-empty.",
+			"(slice) every bitmap of ≤3 words over {0,^0,1,1<<63,0xdeadbeefcafebabe} × every 0 ≤ from ≤ to ≤ 64·len: result length ceil((to-from)/64), bit j = input bit from+j, all other bits 0, input unchanged (the argument carries 3 words of spare capacity holding a canary, which must be intact too). (long) Join on lists filling about 20 (thorough 70) words with ≤2 non-zero values at positions within 1 of a word boundary, and Slice on 20/70-word bitmaps (zero or all-ones with one island at every position) × every range with both ends within 1 of a word boundary. (big) Join on lists and Slice on bitmaps whose lengths lie within 9 of every power of two from 2^10 to 2^14 (Slice: 2^12 words). (length sweep) Join on EVERY list length 0..1100 for every width, Slice on bitmaps of EVERY length 1..300 words × 8 ranges. (giant, 64-bit builds) one sparse bitmap of 2^25 words: Slice on every range of ≤300 bits with both ends in {0, 64, 2^30, 2^30+7, MaxInt32-200.., MaxInt32} (13 values) and Getw at the first, middle and last three elements for every width. A case is one Join call with all its Getw probes, or one Slice call; non-trivial when some value/bit is non-zero and the list/range is non-empty.",
 		Assumptions: []string{"other values / word patterns and longer lists are not enumerated"},
 		Run:         c14Run,
 		Judge:       mc.JudgeOf(c14Judge),
@@ -240,6 +240,7 @@ func c14Run(c *mc.Ctx) {
 		c.Add("join_long_lists", evals)
 	})
 	c14Long(c)
+	c14Sweep(c)
 	c14Big(c)
 	c14Giant(c)
 	// (slice)
@@ -448,6 +449,49 @@ func c14Big(c *mc.Ctx) {
 		c.Expect(evals)
 		c.Add("slice_calls", evals)
 		c.Add("slice_big_calls", evals)
+	})
+}
+
+// c14Sweep: EVERY list length 0..1100 for Join (each width) and EVERY bitmap length 1..300 words for Slice
+// (ranges at both ends and across the middle): the gap between the small complete spaces and the
+// threshold sizes is closed for the length coordinate.
+func c14Sweep(c *mc.Ctx) {
+	type jj struct {
+		w int32
+		l int
+	}
+	var joins []jj
+	for _, w := range c14Widths {
+		for l := 0; l <= 1100; l++ {
+			joins = append(joins, jj{w, l})
+		}
+	}
+	c.Expect(int64(len(joins)))
+	c.Par(len(joins), func(i int) {
+		j := joins[i]
+		if g, wnt := c14JoinOne(c14BigVals(j.l), j.w); g != wnt {
+			c.Fail(9<<50|int64(i), "Join", "Join/length-sweep", c14Case{W: j.w, Len: j.l}, g, wnt)
+		}
+		c.Count(1, 1)
+		c.Add("join_calls", 1)
+	})
+	c.Par(300, func(i int) {
+		l := i + 1
+		w := c14BigVals(l)
+		nb := int32(64 * l)
+		var n int64
+		for _, r := range [][2]int32{{0, nb}, {1, nb}, {0, nb - 1}, {63, nb - 63}, {nb / 2, nb}, {nb/2 - 1, nb/2 + 66}, {nb - 65, nb}, {5, 5}} {
+			if r[0] < 0 || r[1] > nb || r[0] > r[1] {
+				continue
+			}
+			if g, wnt := c14SliceOne(w, r[0], r[1]); g != wnt {
+				c.Fail(9<<50|1<<40|int64(l)<<8|n, "Slice", "Slice/length-sweep", c14Case{From: r[0], To: r[1], Len: l}, clipS(g), clipS(wnt))
+			}
+			n++
+		}
+		c.Count(n, n)
+		c.Expect(n)
+		c.Add("slice_calls", n)
 	})
 }
 
